@@ -16,7 +16,8 @@ VERIF = os.path.dirname(HERE)
 PROPS = ('C01', 'C02', 'C06', 'C07', 'C10', 'C11', 'C12', 'C16', 'C18', 'C19')
 
 
-def source_hash(repo='/repo'):
+def source_hash(repo=None):
+    repo = repo or os.environ.get('VERIF_REPO', '/repo')
     h = hashlib.sha256()
     files = sorted(glob.glob(os.path.join(repo, 'musicxml', '**', '*.py'), recursive=True)) + sorted(glob.glob(os.path.join(repo, 'musicxml', '**', '*.xsd'), recursive=True))
     for f in files:
@@ -232,9 +233,10 @@ def eval_type(args):
 
 
 def sweep(tier='quick', force=False):
-    os.makedirs(os.path.join(VERIF, '.cache'), exist_ok=True)
+    cdir = os.path.join(os.environ.get('VERIF_OUT') or VERIF, '.cache')
+    os.makedirs(cdir, exist_ok=True)
     key = source_hash()
-    path = os.path.join(VERIF, '.cache', f'hist-{tier}-{key}.json')
+    path = os.path.join(cdir, f'hist-{tier}-{key}.json')
     if os.path.exists(path) and not force:
         return json.load(open(path))
     tasks = []
